@@ -206,6 +206,12 @@ class Ctx:
     def has(self, n):
         return n in self._st.env
 
+    def local(self, n):
+        """A program variable whose name collides with a Ctx attribute (result, args, old, ...)."""
+        if n not in self._st.env:
+            raise SpecDrift("spec refers to variable %r which does not exist at this point" % n)
+        return self._st.env[n]
+
     def __getattr__(self, n):
         if n in self._extra:
             return self._extra[n]
